@@ -556,7 +556,8 @@ func loadYamlFile(ctx context.Context, file types.ConfigFile, opts *Options, wor
 			}
 		}
 	} else {
-		if err := processRawYaml(file.Config); err != nil {
+		// a copy: the dictionary belongs to the caller, who may load it again
+		if err := processRawYaml(deepClone(file.Config)); err != nil {
 			return nil, nil, err
 		}
 	}
